@@ -472,6 +472,11 @@ func checkC10(e *Engine, r *Report) {
 		_ = erc20Exec
 	})
 
+	r.Rule("R8", "PROVENANCE", "a failing call changes nothing: every write of an ERC-20 executor goes to the cache context of the CURRENT call frame, which the EVM reverts on error — the dispatcher fills the executor environment with StateDB.GetCurrentContext() anew for every call and never from a field that outlives the call (shared with C03-R3)", 2, func() {
+		envCtx, funcs := cpcEnvCtxField(e)
+		precompileEnvFresh(e, r, funcs, envCtx)
+	})
+
 	r.Rule("R7", "MUST-PASS", "holders of a non-EVM denomination are not 'empty accounts': the StateDB's emptiness test (which decides deletion + burn of all balances of a touched account at commit) requires ALL bank balances to be zero", 1, func() {
 		ok, pos := emptinessCoversAllDenoms(e)
 		r.Check(ok, "IsEmptyAccount › all balances", pos, "true only if GetAllBalances(addr).IsZero()", "an account whose only asset is an ERC-20-precompile denomination other than the EVM denom is 'empty': any EVM message touching it destroys the account and burns the holder's tokens without transfer, allowance or Transfer log")
